@@ -802,8 +802,8 @@ class ThresholdCounter:
         to integer counts.
         """
         if iterable is not None:
-            if callable(getattr(iterable, 'iteritems', None)):
-                for key, count in iterable.iteritems():
+            if callable(getattr(iterable, 'items', None)):
+                for key, count in iterable.items():
                     for i in range(count):
                         self.add(key)
             else:
